@@ -5,7 +5,7 @@ use std::path::{Path, PathBuf};
 use std::{env, fs, io};
 use xml_dom::{
     AsNode, Attr, AttrMut, CharacterData, Document, DocumentMut, Element, NamedNodeMapMut, Node,
-    PrettyPrint,
+    PrettyPrint, ProcessingInstruction,
 };
 
 struct Argument {
@@ -263,7 +263,22 @@ where
             }
         }
         xml_dom::XmlNode::EntityReference(v) => {
-            let n = doc.create_entity_reference(v.node_name().as_str())?;
+            // A character reference has no name: it is copied as the character it denotes
+            // (markup characters as the predefined entity that denotes them).
+            let name = v.node_name();
+            let n = if name.starts_with("&#") {
+                match v.value()?.as_str() {
+                    "<" => doc.create_entity_reference("lt")?.as_node(),
+                    "&" => doc.create_entity_reference("amp")?.as_node(),
+                    c => doc.create_text_node(c).as_node(),
+                }
+            } else {
+                doc.create_entity_reference(name.as_str())?.as_node()
+            };
+            node.append_child(n)?;
+        }
+        xml_dom::XmlNode::PI(v) => {
+            let n = doc.create_processing_instruction(v.target().as_str(), v.data().as_str())?;
             node.append_child(n.as_node())?;
         }
         xml_dom::XmlNode::Text(v) => {
